@@ -198,6 +198,11 @@ func faults(x *mon.Ctx) {
 	reps := x.Scale(1, 10)
 	for _, o := range allOps() {
 		for _, variant := range o.variants {
+			if isAlias(variant) && !x.Thorough() {
+				// keys naming the SM2 curve by a parameter copy run the math/big code whose every read is failed through the NIST P-256
+				// operations; quick leaves their (slow) enumeration out
+				continue
+			}
 			for j := 0; j <= maxJ; j++ {
 				R := modelReads(o, variant, j)
 				for _, kind := range faultKinds {
@@ -277,6 +282,9 @@ func eofSweep(x *mon.Ctx) {
 		for vi, variant := range o.variants {
 			if !x.Thorough() && vi != int(x.Seed%97)%len(o.variants) && modelReads(o, variant, 0) == 1 {
 				continue // quick: one entry point per operation (rotating with the seed) plus every one that reads an IV
+			}
+			if isAlias(variant) && !x.Thorough() {
+				continue
 			}
 			for j := 0; j <= maxJ; j++ {
 				need := 32 * (j + 1)
